@@ -1,7 +1,10 @@
 package checks
 
 import (
+	"bytes"
+	"encoding/json"
 	"fmt"
+	"sync"
 
 	"github.com/Breeze0806/gobinlog"
 
@@ -20,8 +23,78 @@ func init() {
 		synthetic(c)
 		if c.Replay == "" {
 			c20EndToEnd(c)
+			c20Held(c)
 		}
 	})
+}
+
+// c20Held: the bytes a serialisation returned must stay what they were while
+// other transactions are serialised afterwards or concurrently (pooled or
+// shared output buffers). MarshalJSON is exported, so its result is held
+// directly; json.Marshal is exercised from several goroutines at once.
+func c20Held(c *core.Ctx) {
+	var cells [c20NCells]int64
+	var types [258]bool
+	n := c.N(300, 6000)
+	for base := 0; base < n; base += 12 {
+		if !c.Mine(base / 12) {
+			continue
+		}
+		g := &c20Gen{r: c.Rng(core.StrID("c20held"), uint64(base)), cells: &cells, types: &types}
+		txs := make([]*gobinlog.Transaction, 12)
+		for i := range txs {
+			txs[i] = g.tx(base + i)
+		}
+		// (a) direct MarshalJSON results held across later serialisations
+		type heldOut struct{ orig, copy []byte }
+		var outs []heldOut
+		for i, tx := range txs {
+			var b []byte
+			var err error
+			if p := core.Guard(func() { b, err = tx.MarshalJSON() }); p != "" || err != nil {
+				continue // reported by the synthetic half
+			}
+			outs = append(outs, heldOut{b, append([]byte(nil), b...)})
+			for j, h := range outs[:len(outs)-1] {
+				if !bytes.Equal(h.orig, h.copy) {
+					c.Violation("txjson-output-changed-by-later-serialisation", fmt.Sprintf("the bytes returned by MarshalJSON for transaction %d changed when transaction %d was serialised", base+j, base+i),
+						map[string]interface{}{"mode": "held", "base": base, "earlier": j, "later": i, "before": string(clip(h.copy)), "after": string(clip(h.orig))})
+					return
+				}
+			}
+			c.Case(core.HashU64(core.HashU64(0, uint64(base+i)), 2020), true)
+		}
+		// (b) json.Marshal from several goroutines at once
+		want := make([][]byte, len(txs))
+		for i, tx := range txs {
+			want[i], _ = json.Marshal(tx)
+		}
+		var wg sync.WaitGroup
+		var mu sync.Mutex
+		bad := ""
+		for rep := 0; rep < 4; rep++ {
+			for i := range txs {
+				wg.Add(1)
+				go func(i int) {
+					defer wg.Done()
+					got, err := json.Marshal(txs[i])
+					if err != nil || !bytes.Equal(got, want[i]) {
+						mu.Lock()
+						if bad == "" {
+							bad = fmt.Sprintf("json.Marshal of transaction %d gave a different result (err=%v) while other transactions were serialised concurrently", base+i, err)
+						}
+						mu.Unlock()
+					}
+				}(i)
+			}
+		}
+		wg.Wait()
+		if bad != "" {
+			c.Violation("txjson-concurrent-serialisation-differs", bad, map[string]interface{}{"mode": "concurrent", "base": base})
+			return
+		}
+		c.Cell("held:batches")
+	}
 }
 
 func c20EndToEnd(c *core.Ctx) {
